@@ -209,7 +209,7 @@ class Path:
         return "Path(%s, %r, |pc|=%d)" % (self.kind, self.value, len(self.pc))
 
 
-def explore(fn, base=(), maxpaths=20000, base_key=None):
+def explore(fn, base=(), maxpaths=20000, base_key=None, on_path=None):
     """Enumerate every feasible path of fn() (re-execution DFS). Returns list of Path.
     kind is 'ret' or 'exc'. Exceeding maxpaths is a hard error (Unsupported), never a truncation."""
     work = [[]]
@@ -235,6 +235,8 @@ def explore(fn, base=(), maxpaths=20000, base_key=None):
             if r is not None:
                 out.append(Path(list(c.pc), r[0], r[1], c.notes, c.margins, c.floors))
                 STATS.paths += 1
+                if on_path is not None and on_path(out[-1]):
+                    break          # the caller has what it needs (e.g. a reproduced violation): stop exploring
                 if len(out) > maxpaths:
                     raise Unsupported("path cap %d exceeded" % maxpaths)
     finally:
@@ -1874,6 +1876,46 @@ def symx_in(x, container):
     return x in container
 
 
+def symx_not(c):
+    """`not c` without forcing a symbolic condition to a bool"""
+    if isinstance(c, SymBool):
+        return SymBool(z3.Not(c.t), bnot(c.bit) if c.bit is not None else None)
+    if isinstance(c, SymInt):
+        return SymBool(z3.Not(c.nonzero()))
+    return not c
+
+
+class SymBitArr:
+    """a 1-D numpy integer array whose elements are 0/1 values (ints or one-bit SymInts): the operations used by
+    py_common.crc_legacy (indexing, slicing, slice assignment, element-wise xor, array2string)"""
+
+    def __init__(self, elems):
+        self.e = list(elems)
+
+    def __len__(self):
+        return len(self.e)
+
+    def __getitem__(self, i):
+        if isinstance(i, slice):
+            return SymBitArr(self.e[i])
+        return self.e[i]
+
+    def __setitem__(self, i, v):
+        if isinstance(i, slice):
+            vals = list(v.e) if isinstance(v, SymBitArr) else list(v)
+            if len(self.e[i]) != len(vals):
+                raise ValueError("could not broadcast input array from shape (%d,) into shape (%d,)" % (len(vals), len(self.e[i])))
+            self.e[i] = vals
+        else:
+            self.e[i] = v
+
+    def xor(self, o):
+        ov = list(o.e) if isinstance(o, SymBitArr) else [builtins.int(x) for x in o]
+        if len(ov) != len(self.e):
+            raise ValueError("operands could not be broadcast together with shapes (%d,) (%d,)" % (len(self.e), len(ov)))
+        return SymBitArr([a ^ b for a, b in zip(self.e, ov)])
+
+
 def symx_issym(c):
     return isinstance(c, (SymBool, SymInt))
 
@@ -1882,6 +1924,8 @@ def symx_ite(c, a, b):
     """merge after if-conversion: a if c else b"""
     if a is b:
         return a
+    if isinstance(a, SymBitArr) and isinstance(b, SymBitArr) and len(a) == len(b):
+        return SymBitArr([symx_ite(c, x, y) for x, y in zip(a.e, b.e)])
     if isinstance(a, (int, SymInt)) and isinstance(b, (int, SymInt)) and not isinstance(a, bool) and not isinstance(b, bool):
         a = SymInt.lift(a)
         b = SymInt.lift(b)
